@@ -5,8 +5,9 @@
    the same multiset of rows as the sort-merge join.  hashantijoin: the as-written loop returns exactly the left rows whose key is == to no right
    key, in left order (HashAntiFacts.v).  hashlookupjoin: the probe loop emits exactly one row per left row, in left order, the left
    row unchanged followed by the value cells of the row the lookupone dictionary holds for its key (or `missing`).
-   hashrightjoin is tied by the correspondence and judged by the extracted oracles hash_spec_holds / same_table (its
-   theorem is not mechanised). *)
+   hashrightjoin: the probe loop emits, in right order, one block per right row: the row joined to all left rows of its
+   key in left-table order, or the padded right-only row.  All are also tied by the correspondence and judged by the
+   extracted oracles hash_spec_holds / same_table. *)
 From Verif Require Import PyVal Rows ComparableGen AsIndicesGen ComparableFacts Sort Basics Dedup Joins Relational HashJoins HashFacts HashAntiFacts JoinRel.
 From Coq Require Import Permutation.
 
@@ -87,6 +88,19 @@ Proof.
     [exact (hashlookupjoin_loop_count lkind rvind missing rl L out H)|exact (hashlookupjoin_loop_exact lkind rvind missing rl L out H)].
 Qed.
 
+(* hashrightjoin: the output is the concatenation, in right order, of one block per right row: that row joined to ALL the left rows
+   the lookup holds for its key, in left-table order, or the single padded right-only row when the key is absent *)
+Theorem C07_hashrightjoin_blocks_in_right_order : forall (lhdr_len : nat) (lkind rkind rvind : list Z) (missing : val)
+    (ll : pdict (list val)) (R out : list row),
+  hashrightjoin_loop lhdr_len lkind rkind rvind missing ll R = (out, None) ->
+  exists blocks, out = concat blocks /\
+    Forall2 (fun rrow block => exists k, raw_getkey rkind rrow = Some k /\
+               block = match pd_get ll k with
+                       | Some lrows => map (fun lrow => lrow ++ rgetv rvind missing rrow) (rows_of_vals lrows)
+                       | None => join_right_only lhdr_len lkind rkind rvind missing [rrow]
+                       end) R blocks.
+Proof. exact hashrightjoin_loop_exact. Qed.
+
 Open Scope Z_scope.
 Example C07_ex :
   lookup_model (VStr [107]) (Some (VStr [118]))
@@ -101,3 +115,4 @@ Print Assumptions C07_hashjoin_is_nested_loop_in_left_order.
 Print Assumptions C07_hashjoin_agrees_with_join.
 Print Assumptions C07_hashantijoin_is_the_exact_complement.
 Print Assumptions C07_hashlookupjoin_one_row_per_left_row.
+Print Assumptions C07_hashrightjoin_blocks_in_right_order.
